@@ -214,7 +214,20 @@ pub fn check_tid(ctx: &mut Ctx, x: u128) {
         let parsed = Message::from_bytes(&bytes).ok().map(|m| u128::from(m.transaction_id()));
         let hdr = MessageHeader::from_bytes(&bytes).ok().map(|h| u128::from(h.transaction_id()));
         let _ = format!("{t} {t:?}");
-        (back, btid, bytes, parsed, hdr)
+        // the id through every other way a builder comes to carry it: responses made from the parsed
+        // request (success / error), write_into, into_owned, clone
+        let mut derived: Vec<(&'static str, Option<(u128, u8, u16)>)> = vec![];
+        if let Ok(m) = Message::from_bytes(&bytes) {
+            let rd = |b: Vec<u8>| Message::from_bytes(&b).ok().map(|r| (u128::from(r.transaction_id()), class_num(r.class()), r.method()));
+            derived.push(("builder_success", rd(Message::builder_success(&m).build())));
+            derived.push(("builder_error", rd(Message::builder_error(&m).build())));
+            let b2 = Message::builder(mt, t);
+            let mut dest = vec![0xA5u8; 24];
+            derived.push(("write_into", b2.write_into(&mut dest).ok().and_then(|n| rd(dest[..n].to_vec()))));
+            derived.push(("into_owned", rd(Message::builder(mt, t).into_owned().build())));
+            derived.push(("clone", rd(b2.clone().build())));
+        }
+        (back, btid, bytes, parsed, hdr, derived)
     });
     match r {
         Err(p) => ctx.violation(
@@ -226,7 +239,13 @@ pub fn check_tid(ctx: &mut Ctx, x: u128) {
             "value".into(),
             format!("panic {} at {}", p.msg, p.loc),
         ),
-        Ok((back, btid, bytes, parsed, hdr)) => {
+        Ok((back, btid, bytes, parsed, hdr, derived)) => {
+            for (how, got) in &derived {
+                let want_class = match *how { "builder_success" => 2u8, "builder_error" => 3, _ => 0 };
+                if *got != Some((low, want_class, 1)) {
+                    ctx.violation("C19", "tid-readback", "Message::transaction_id", how, wit, format!("id {low:x} class {want_class} method 1 via {how}"), format!("{got:x?}"));
+                }
+            }
             if back != low || btid != low {
                 ctx.violation(
                     "C19",
